@@ -630,8 +630,24 @@ class PyEval:
             raise _Break()
         elif isinstance(s, ast.Continue):
             raise _Continue()
-        elif isinstance(s, (ast.Pass, ast.Global, ast.Nonlocal)):
+        elif isinstance(s, ast.Pass):
             pass
+        elif isinstance(s, ast.Nonlocal):
+            # assignments to these names go to the enclosing function that holds them
+            for nm in s.names:
+                e_ = env.parent
+                while e_ is not None and nm not in e_.vars:
+                    e_ = e_.parent
+                if e_ is None:
+                    raise AnalysisError('abstract evaluation: nonlocal %s at %s names no variable of an enclosing function' % (nm, self.L(mod, s)))
+                if not hasattr(env, 'outer'):
+                    env.outer = {}
+                env.outer[nm] = e_
+        elif isinstance(s, ast.Global):
+            for nm in s.names:
+                if not hasattr(env, 'outer'):
+                    env.outer = {}
+                env.outer[nm] = 'global'
         elif isinstance(s, (ast.Import, ast.ImportFrom)):
             for a in s.names:
                 nm = a.asname or a.name.split('.')[0]
@@ -639,25 +655,37 @@ class PyEval:
         elif isinstance(s, ast.FunctionDef):
             env.vars[s.name] = PFunc(self, mod, s, cls=cls, closure=env)
         elif isinstance(s, ast.Raise):
+            if s.exc is None and getattr(self, '_handling', None):
+                raise self._handling[-1]            # a bare raise inside a handler: the exception being handled
             what = ast.unparse(s.exc) if s.exc is not None else 'raise'
             raise Raised(what, self.L(mod, s))
         elif isinstance(s, ast.Assert):
             if not self.truth(ev(s.test)):
                 raise Raised('AssertionError: ' + ast.unparse(s.test), self.L(mod, s))
         elif isinstance(s, ast.Try):
+            # the handler that takes an exception is the first whose class the raised one is (by the class hierarchy of the built-in
+            # exceptions, by the bases of a class of the program, else by name); the finally block runs however the statement is left
             try:
-                self.block(s.body, env, mod, cls, depth)
-            except Raised as r:
-                if not s.handlers:
+                try:
+                    self.block(s.body, env, mod, cls, depth)
+                except Raised as r:
+                    h = next((h_ for h_ in s.handlers if self._handles(h_, r, env, mod, cls, depth)), None)
+                    if h is None:
+                        raise
+                    if h.name:
+                        env.vars[h.name] = r.what
+                    if not hasattr(self, '_handling'):
+                        self._handling = []
+                    self._handling.append(r)
+                    try:
+                        self.block(h.body, env, mod, cls, depth)
+                    finally:
+                        self._handling.pop()
+                else:
+                    self.block(s.orelse, env, mod, cls, depth)
+            finally:
+                if s.finalbody:
                     self.block(s.finalbody, env, mod, cls, depth)
-                    raise
-                h = s.handlers[0]
-                if h.name:
-                    env.vars[h.name] = r.what
-                self.block(h.body, env, mod, cls, depth)
-            else:
-                self.block(s.orelse, env, mod, cls, depth)
-            self.block(s.finalbody, env, mod, cls, depth)
         elif isinstance(s, ast.With):
             def enter(i):
                 if i == len(s.items):
@@ -697,9 +725,59 @@ class PyEval:
         else:
             raise AnalysisError('abstract evaluation: statement kind %s at %s' % (type(s).__name__, self.L(mod, s)))
 
+    def _handles(self, h, r, env, mod, cls, depth):
+        """does `except <h.type>` take the raised exception r?"""
+        import builtins
+        if h.type is None:
+            return True
+        m = _re.match(r'^([A-Za-z_][\w.]*)', str(r.what))
+        rname = m.group(1) if m else ''
+        rshort = rname.split('.')[-1]
+        rcls = getattr(builtins, rshort, None)
+        rcls = rcls if isinstance(rcls, type) and issubclass(rcls, BaseException) else None
+        for t in (h.type.elts if isinstance(h.type, ast.Tuple) else [h.type]):
+            tname = ast.unparse(t).split('.')[-1]
+            try:
+                tv = self.expr(t, env, mod, cls, depth)
+            except (AnalysisError, Raised):
+                tv = None
+            if tv is None:
+                bc = getattr(builtins, tname, None)
+                if isinstance(bc, type) and issubclass(bc, BaseException):
+                    tv = bc
+            if isinstance(tv, type) and issubclass(tv, BaseException):
+                if rcls is not None:
+                    if issubclass(rcls, tv):
+                        return True
+                    continue
+                if tv in (Exception, BaseException):
+                    return True          # a class of the program or of a library, raised by name: every such class is an Exception
+                continue
+            if isinstance(tv, PClass):
+                # an exception class of the program: the raised class is it, or derives from it through bases of the same module
+                seen, todo = set(), [rshort]
+                while todo:
+                    c_ = todo.pop()
+                    if c_ == tv.name:
+                        return True
+                    if c_ in seen or c_ not in tv.mod.classes:
+                        continue
+                    seen.add(c_)
+                    todo.extend(b.id for b in tv.mod.classes[c_].bases if isinstance(b, ast.Name))
+                continue
+            if tname == rshort or tname in ('Exception', 'BaseException'):
+                return True
+        return False
+
     def store(self, t, v, env, mod, cls, depth):
         if isinstance(t, ast.Name):
-            env.vars[t.id] = v
+            tgt = getattr(env, 'outer', {}).get(t.id) if hasattr(env, 'outer') else None
+            if tgt == 'global':
+                self._modenv[(mod.rel, t.id)] = v            # `global name`: the module-level binding
+            elif tgt is not None:
+                tgt.vars[t.id] = v                           # `nonlocal name`
+            else:
+                env.vars[t.id] = v
         elif isinstance(t, (ast.Tuple, ast.List)):
             vals = list(self.iterate(v, self.L(mod, t)))
             stars = [i for i, x in enumerate(t.elts) if isinstance(x, ast.Starred)]
